@@ -121,6 +121,15 @@ impl Scenario for FrameRender {
         }
         case.blobs.insert("oam".to_string(), oam);
         case.set("part", (index % 4) as i64);
+        // half of the cases present a second frame with other inputs (set during the VBlank between the two): the buffer
+        // published at the second VBlank event must be the second composition, not a stale or half-swapped one
+        if rng.chance(1, 2) {
+            case.set("vseed2", 1 + rng.below(1 << 30) as i64);
+            case.set("scx2", rng.byte() as i64);
+            case.set("scy2", rng.byte() as i64);
+            case.set("bgp2", rng.byte() as i64);
+            case.set("lcdc2", (0x81 | (rng.byte() & 0x7e)) as i64);
+        }
         // drawn partition sizes (used when part == 3)
         let mut sizes: Vec<i64> = Vec::new();
         for _ in 0..64 {
@@ -220,6 +229,59 @@ impl Scenario for FrameRender {
                 format!("partition {}: first differing pixel ({}, {}): presented shade {}, reference {} ({} layer); {} pixels differ; LCDC {:#04x} SCX {} SCY {} WX {} WY {}", pname, x, y, got[i], ref_a[i], lname, bad, lcdc, case.get("scx"), case.get("scy"), case.get("wx"), case.get("wy")),
             ));
             return out;
+        }
+        // second frame with other inputs
+        if case.get("vseed2") != 0 {
+            let mut c2 = case.clone();
+            c2.set("vseed", case.get("vseed2"));
+            let (vram2, oam2) = build_inputs(&c2);
+            let lcdc2 = (case.get("lcdc2") as u8) | 0x81;
+            let regs2: [(u16, u8); 4] = [(0xff40, lcdc2), (0xff42, case.get("scy2") as u8), (0xff43, case.get("scx2") as u8), (0xff47, case.get("bgp2") as u8)];
+            let two = std::panic::catch_unwind(std::panic::AssertUnwindSafe(|| -> Vec<u8> {
+                let mut m = IntMachine::from_code(vec![0x18, 0xfe]);
+                m.vram().copy_from_slice(&vram);
+                m.oam().copy_from_slice(&oam);
+                for (a, v) in regs {
+                    m.write(a, v);
+                }
+                m.clock(FRAME as usize);
+                // now in the VBlank that follows frame 1: change the inputs
+                m.vram().copy_from_slice(&vram2);
+                m.oam().copy_from_slice(&oam2);
+                for (a, v) in regs2 {
+                    m.write(a, v);
+                }
+                let mut left = FRAME;
+                let mut k = 0usize;
+                while left > 0 {
+                    let n = match part {
+                        0 => 4,
+                        1 => 456,
+                        2 => FRAME,
+                        _ => {
+                            let s = if sizes.is_empty() { 456 } else { sizes[k % sizes.len()] };
+                            k += 1;
+                            s
+                        }
+                    }
+                    .min(left);
+                    m.clock(n as usize);
+                    left -= n;
+                }
+                m.visible_frame().to_vec()
+            }));
+            if let Ok(f2) = two {
+                let mk2 = |mask: bool| RenderIn { vram: &vram2, oam: &oam2, lcdc: lcdc2, scx: case.get("scx2") as u8, scy: case.get("scy2") as u8, wx: case.get("wx") as u8, wy: case.get("wy") as u8, bgp: case.get("bgp2") as u8, obp0: case.get("obp0") as u8, obp1: case.get("obp1") as u8, mask_tall_index: mask };
+                let (r2, _) = render(&mk2(false));
+                let ok2 = f2 == r2 || (lcdc2 & 4 != 0 && f2 == render(&mk2(true)).0);
+                if !ok2 {
+                    let stale = f2 == got;
+                    let i = (0..160 * 144).find(|&i| f2[i] != r2[i]).unwrap();
+                    out.push(Violation::new("C15", if stale { "C15/second-frame/stale-buffer-presented".to_string() } else { "C15/second-frame/pixel".to_string() }, format!("partition {}: the frame presented at the second VBlank differs from the composition of the second inputs at ({}, {}){}", pname, i % 160, i / 160, if stale { " - it is still the first frame" } else { "" })));
+                    return out;
+                }
+                ctx.cov.hit("probe.second_frames_compared");
+            }
         }
         // batching independence: one other partition must present the same frame
         let other = (part + 1 + (case.index as i64 % 3)) % 4;
